@@ -81,7 +81,9 @@ def build(ir, r, ctor=True):
             kw['default'] = B(ir[2])
         if ir[3] is not None:
             kw['default_factory'] = fn_of(ir[3])
-        if ir[4] is not None:
+        if isinstance(ir[4], dict) and 'skipnone' in ir[4]:
+            kw['skip'] = None                     # skip=None given explicitly: None results are skipped
+        elif ir[4] is not None:
             kw['skip'] = r.build(ir[4]) if not (isinstance(ir[4], dict) and 'fn' in ir[4]) else fn_of(ir[4]['fn'])
         if ir[5] is not None:
             kw['skip_exc'] = tuple(_exc_cls(n) for n in ir[5])
@@ -221,7 +223,9 @@ def spec_coq(ir):
         return '(SPipe %s)' % olist(ir[1], C)
     if k == 'Coalesce':
         skip = 'None'
-        if ir[4] is not None:
+        if isinstance(ir[4], dict) and 'skipnone' in ir[4]:
+            skip = '(Some VNone)'
+        elif ir[4] is not None:
             skip = '(Some %s)' % val_coq(ir[4])
         return '(SCoalesce %s %s %s %s %s)' % (olist(ir[1], C), opt(ir[2]), copt(ir[3], fn_coq), skip,
                                                copt(ir[5], lambda l: clist(cstr(x) for x in l)))
